@@ -8,6 +8,8 @@ use crate::treeread::{TreeReadCfg, TreeReadError, TreeReader};
 use asn1rs::prelude::*;
 use asn1rs::protocol::per::Error as PerError;
 use asn1rs::protocol::protobuf::Error as ProtoError;
+use asn1rs::protocol::basic::Error as BasicError;
+use crate::io::{FaultyRead, FaultyWrite};
 use std::any::Any;
 use std::fmt::Debug;
 use std::sync::OnceLock;
@@ -40,6 +42,9 @@ pub struct TypeOps {
     pub uper_read_traced: for<'a, 'b> fn(&'b mut UperReader<TraceBits<'a>>) -> Result<Val, PerError>,
     pub proto_write: for<'a, 'b> fn(&Val, &'b mut ProtobufWriter<'a>) -> Result<(), ProtoError>,
     pub proto_read: for<'a, 'b> fn(&'b mut ProtobufReader<'a>) -> Result<Val, ProtoError>,
+    /// only meaningful for F_DER types (everything else is `todo!()` in rw/der.rs)
+    pub der_write: for<'a, 'b> fn(&Val, &'b mut BasicWriter<&'a mut FaultyWrite>) -> Result<(), BasicError>,
+    pub der_read: for<'a, 'b> fn(&'b mut BasicReader<&'a mut FaultyRead>) -> Result<Val, BasicError>,
 }
 
 fn down<T: 'static>(v: &Val) -> &T {
@@ -91,6 +96,8 @@ where
         uper_read_traced: |r| r.read::<T>().map(|v| Box::new(v) as Val),
         proto_write: |v, w| w.write(down::<T>(v)),
         proto_read: |r| r.read::<T>().map(|v| Box::new(v) as Val),
+        der_write: |v, w| w.write(down::<T>(v)),
+        der_read: |r| r.read::<T>().map(|v| Box::new(v) as Val),
     }
 }
 
@@ -104,6 +111,16 @@ pub fn zoo() -> &'static Zoo {
     ZOO.get_or_init(|| {
         let mut types = Vec::new();
         register(&mut types);
+        // descriptor-level types for DER (the only kinds rw/der.rs implements besides ENUMERATED)
+        types.push(ops::<prim::PBool>("prim.PBool", "-", &["der", "proto"]));
+        types.push(ops::<prim::PInt<u8>>("prim.PIntU8", "-", &["der", "proto"]));
+        types.push(ops::<prim::PInt<i8>>("prim.PIntS8", "-", &["der", "proto"]));
+        types.push(ops::<prim::PInt<u16>>("prim.PIntU16", "-", &["der", "proto"]));
+        types.push(ops::<prim::PInt<i16>>("prim.PIntS16", "-", &["der", "proto"]));
+        types.push(ops::<prim::PInt<u32>>("prim.PIntU32", "-", &["der", "proto"]));
+        types.push(ops::<prim::PInt<i32>>("prim.PIntS32", "-", &["der", "proto"]));
+        types.push(ops::<prim::PInt<u64>>("prim.PIntU64", "-", &["der", "proto"]));
+        types.push(ops::<prim::PInt<i64>>("prim.PIntS64", "-", &["der", "proto"]));
         Zoo { types }
     })
 }
@@ -117,5 +134,38 @@ impl Zoo {
     }
     pub fn without_flag(&self, flag: u32) -> Vec<usize> {
         (0..self.types.len()).filter(|i| self.types[*i].flags & flag == 0).collect()
+    }
+}
+
+/// hand-written descriptor-level types: `Integer<T, NoConstraint>` and `Boolean<NoConstraint>` as the
+/// repo's own DER tests use them
+pub mod prim {
+    use asn1rs::descriptor::numbers::Number;
+    use asn1rs::descriptor::*;
+
+    #[derive(Debug, PartialEq, Clone)]
+    pub struct PBool(pub bool);
+    impl Writable for PBool {
+        fn write<W: Writer>(&self, w: &mut W) -> Result<(), W::Error> {
+            Boolean::<boolean::NoConstraint>::write_value(w, &self.0)
+        }
+    }
+    impl Readable for PBool {
+        fn read<R: Reader>(r: &mut R) -> Result<Self, R::Error> {
+            Boolean::<boolean::NoConstraint>::read_value(r).map(PBool)
+        }
+    }
+
+    #[derive(Debug, PartialEq, Clone)]
+    pub struct PInt<T: Number>(pub T);
+    impl<T: Number> Writable for PInt<T> {
+        fn write<W: Writer>(&self, w: &mut W) -> Result<(), W::Error> {
+            Integer::<T, numbers::NoConstraint>::write_value(w, &self.0)
+        }
+    }
+    impl<T: Number> Readable for PInt<T> {
+        fn read<R: Reader>(r: &mut R) -> Result<Self, R::Error> {
+            Integer::<T, numbers::NoConstraint>::read_value(r).map(PInt)
+        }
     }
 }
